@@ -39,6 +39,7 @@ type resp struct {
 	Repeat        int
 	Loc           string
 	PartialStatus int
+	ContentLength int64
 }
 
 type kase struct {
@@ -355,6 +356,9 @@ func hostile(run *ev.Run, dir string) {
 	others["partial404_fullshort"] = resp{Status: 200, Body: randBytes(r, 64), PartialStatus: 404}
 	others["partial404_fullempty"] = resp{Status: 200, PartialStatus: 404}
 	others["partial500_fullhtml"] = resp{Status: 200, Body: []byte("<html><body>Service Temporarily Unavailable</body></html>"), PartialStatus: 500}
+	// what a response declares need not be what it carries
+	others["declares_2^62_bytes"] = resp{Status: 200, Body: randBytes(r, 64), ContentLength: 1 << 62}
+	others["declares_unknown_length"] = resp{Status: 200, Body: make([]byte, 32*256), ContentLength: -1}
 	otherNames := []string{"404", "random", "zerotile", "empty", "5MiB", "500", "stall"}
 	// well-formed proof JSON for the Rekor feeder (its other requests are proof requests)
 	hx := func(n int) string { return fmt.Sprintf("%x", randBytes(r, n)) }
@@ -411,6 +415,10 @@ func hostile(run *ev.Run, dir string) {
 			first{"json_garbage", resp{Status: 200, Body: []byte(`{"signedTreeHead": 5, "inactiveShards": [{"treeID": 777}]}`)}, false},
 			first{"json_deep", resp{Status: 200, Body: []byte(strings.Repeat("[", 100000))}, false},
 		)
+		firsts = append(firsts,
+			first{"declares_2^62_bytes", resp{Status: 200, Body: randBytes(r, 100), ContentLength: 1 << 62}, false},
+			first{"declares_2^63-1_bytes", resp{Status: 200, Body: nil, ContentLength: 1<<63 - 1}, false},
+			first{"valid_declares_unknown_length", resp{Status: 200, Body: wrap(sign(9, l.Root(0, 9))), ContentLength: -1}, true})
 		for _, holds := range [][]byte{nil, honest5} {
 			for _, f := range firsts {
 				ons := otherNames
@@ -418,6 +426,9 @@ func hostile(run *ev.Run, dir string) {
 					ons = []string{otherNames[(len(cases)+fi)%len(otherNames)]}
 				} else if !run.Thorough() {
 					ons = []string{"404", "random", "zerotile"}
+				}
+				if f.name == "valid_declares_unknown_length" {
+					ons = []string{"declares_2^62_bytes", "declares_unknown_length", "zerotile"}
 				}
 				if f.name == "valid_size_300" {
 					if holds == nil {
@@ -471,13 +482,17 @@ func hostile(run *ev.Run, dir string) {
 	}
 	// a log that accepts a proof/tile request and never answers: the cycle's own deadline must end the request,
 	// so that the polling loop goes on to its next cycles (counted as checkpoint fetches)
+	seenKind := map[string]bool{}
 	for _, c0 := range append([]kase{}, cases...) {
-		if c0.Kind != "distributor" && c0.PollMS == 0 && c0.Holds != nil && strings.Contains(c0.Desc, "/first=valid/") && strings.Contains(c0.Desc, "/other=404/") {
+		// one per feeder kind: any case whose first answer is the valid larger checkpoint and whose witness holds size 5
+		if c0.Kind != "distributor" && !seenKind[c0.Kind] && c0.PollMS == 0 && c0.Holds != nil && strings.Contains(c0.Desc, "/first=valid/") {
+			seenKind[c0.Kind] = true
 			c := c0
 			c.ID = len(cases)
 			c.Other = resp{Status: 200, StallMS: 3600000}
 			c.PollMS, c.DeadlineMS = 180, 1500
-			c.Desc = strings.Replace(c.Desc, "/other=404/", "/other=hang/", 1) + "/polling"
+			parts := strings.Split(c.Desc, "/")
+			c.Desc = parts[0] + "/first=valid/other=hang/holds5/polling"
 			cases = append(cases, c)
 		}
 	}
